@@ -24,7 +24,8 @@ ImagesShapes == {Img(2, <<"L", "E", "L">>, sh, fam, comp, data, refs) :
                 \cup {ImgA(2, <<"L", "E", "L">>, sh, "oci", "gzip", data, TRUE, "sha512") : sh \in {"image", "index"}, data \in BOOLEAN}
                 \cup {UT(Img(2, <<"L", "E", "L">>, sh, fam, comp, FALSE, FALSE)) : sh \in {"image", "index"}, fam \in {"oci", "docker"}, comp \in {"gzip", "none"}}
 
-O(k) == [k |-> k, a |-> "", v |-> "", i |-> 0, s |-> {}]
+O(k) == [k |-> k, a |-> "", v |-> "", i |-> 0, s |-> {}, f |-> ""]
+Oavf(k, a, v, f) == [O(k) EXCEPT !.a = a, !.v = v, !.f = f]
 Oa(k, a) == [O(k) EXCEPT !.a = a]
 Oav(k, a, v) == [O(k) EXCEPT !.a = a, !.v = v]
 Oi(k, i) == [O(k) EXCEPT !.i = i]
@@ -60,7 +61,16 @@ OptsMeta == {Oa("AddLayer", "linux/amd64"), Os("RmCreatedBy", {}, "^nomatch$"), 
              Oa("LayerTime", "same"), Oa("LayerTime", "samezone"), Oa("LayerTime", "samelocal"), Oa("LayerTime", "sameafter"),
              Oa("FileTarTime", "same"), Oa("FileTarTime", "samezone"),
              Oa("Entrypoint", "/entry"), Oa("ExposeAdd", "8080/tcp"), Oa("ExposeRm", "8080/tcp"), Oa("VolumeAdd", "/data"), Oa("VolumeRm", "/data")}
-OptsAll == OptsAlign \cup OptsMeta
+\* round 5: the form of the stream handed to WithLayerAddTar (already compressed in every format archive.Decompress
+\* knows, a tar without entries, a tar without end-of-archive blocks) x media type argument x platform
+MtZstd == "application/vnd.oci.image.layer.v1.tar+zstd"
+MtTar == "application/vnd.oci.image.layer.v1.tar"
+MtDGzip == "application/vnd.docker.image.rootfs.diff.tar.gzip"
+OptsForms == {Oavf("AddLayer", "", "", f) : f \in {"gzip", "gzipalt", "zstd", "xz", "bzip2", "empty", "notrailer"}}
+             \cup {Oavf("AddLayer", "", MtZstd, f) : f \in {"gzip", "zstd", "empty"}}
+             \cup {Oavf("AddLayer", "", MtTar, f) : f \in {"empty", "notrailer"}}
+             \cup {Oavf("AddLayer", "", MtDGzip, "gzip"), Oavf("AddLayer", "linux/amd64", "", "gzip"), Oavf("AddLayer", "linux/amd64", "", "zstd")}
+OptsAll == OptsAlign \cup OptsMeta \cup OptsForms
 \* the interaction core for deeper programs
 OptsCore == {Oa("AddLayer", ""), Oi("RmIndex", 0), Oi("RmIndex", 1), Os("RmCreatedBy", {"L1", "L3"}, "^ADD L(1|3)$"),
              Oa("StripFile", "l2"), Oa("StripFile", "l1/data.txt"), Oa("StripFile", "nosuch"), Oa("LayerTime", "set"),
@@ -78,5 +88,11 @@ OptsAsisTag == {Oa("Data", "keep")}
 OptsAsisDesc == {Oa("ManifestDigest", "sha512")}
 ImagesDataRefs == {Img(2, <<"L", "E", "L">>, "index", "oci", "gzip", TRUE, TRUE)}
 OptsAsisClose == {Oa("LayerDigest", "sha512"), Oa("Compress", "zstd")}
+\* the universe of C13_gen_forms / C13_mc_forms: every form with the options that read or rewrite the added layer
+OptsFormsWith == OptsForms \cup {Oa("AddLayer", ""), Oa("Compress", "zstd"), Oa("Compress", "none"),
+                                 Oa("LayerDigest", "sha512"), Oa("LayerTime", "set"), Oa("StripFile", "nosuch"), Oa("StripFile", "add"),
+                                 O("Reproducible"), Oi("RmIndex", 0), Oa("Data", "all"), Oav("Label", "x", "y"), O("Rebase")}
+ImagesFormsQ == {Img(2, <<"L", "E", "L">>, "image", "oci", "gzip", FALSE, FALSE), Img(2, <<"L", "L", "E">>, "index", "docker", "none", FALSE, TRUE)}
+ImagesForms == ImagesFormsQ \cup {Img(1, <<>>, "image", "oci", "zstd", FALSE, FALSE), ImgA(1, <<"E", "L">>, "index", "oci", "gzip", FALSE, FALSE, "sha512")}
 AllPlaces == {"same-digest", "same-tag", "same-replace", "cross"}
 =============================================================================
